@@ -694,7 +694,41 @@ func (fv *FnV) run() (err error) {
 	fv.lockBalanceAndOwnership()
 	fv.flushPending()
 	fv.atCallBinding()
+	fv.loopBinding()
 	return nil
+}
+
+// loopBinding: a loop clause that names a loop the body does not have says nothing; that is reported, not passed over.
+func (fv *FnV) loopBinding() {
+	if fv.k == nil {
+		return
+	}
+	n := len(fv.loops)
+	report := func(k int, cl *Clause, what string) {
+		if k < n || cl == nil {
+			return
+		}
+		o := fv.emit(nil, "B", fmt.Sprintf("loop%d.%s", k, cl.Label), cl.Props, "false", "the clause `loop "+fmt.Sprint(k)+" "+what+" "+cl.Label+"` names a loop of the current body", fv.fn.Pos())
+		o.Static = fmt.Sprintf("fails: the function body has %d loop(s)", n)
+		o.Script = ""
+	}
+	for k, cls := range fv.k.LoopInv {
+		for _, cl := range cls {
+			report(k, cl, "invariant")
+		}
+	}
+	for k, cl := range fv.k.RangeOver {
+		report(k, cl, "ascending-range")
+	}
+	for k, cl := range fv.k.Exhaustive {
+		report(k, cl, "exhaustive")
+	}
+	for k, cl := range fv.k.Rereads {
+		report(k, cl, "rereads")
+	}
+	for k, cl := range fv.k.Unconditional {
+		report(k, cl, "unconditional")
+	}
 }
 
 type unsupported string
